@@ -1,7 +1,7 @@
 (* C11 model runner.  Input lines "ID<TAB>V <value>" or "ID<TAB>Q <cps> [<hex>]" (grammar in
    harness/cmd/c11/value.go); output "ID<TAB>MODEL<TAB>SPEC":
      V: MODEL json=<hex of to_json v>;parse=<tree read by json_parse | ERR>;unjson=<of_tree of it>
-        SPEC  tree=<tree_of v>;back=<norm v>;flags=<wf,data,reserved,strkeys,dupnames>
+        SPEC  tree=<tree_of v, numbers by value>;back=<norm v>;flags=<wf,data,reserved,strkeys,dupnames>
      Q: MODEL q=<hex of json_quote s>   SPEC <S cps of fix_str s, checked to be what pstr reads back> *)
 open Model
 open Zutil
@@ -108,6 +108,21 @@ let show_outcome = function
 
 let tree_string t = let b = Buffer.create 64 in show_tree b t; Buffer.contents b
 
+(* the same with numbers by value: I<integer> for a token of digits (int_token, from Coq),
+   D<bits> for any other token (the float of this case that prints as that token) *)
+let rec show_tree_val (b : Buffer.t) (t : jtree) : unit =
+  match t with
+  | JNum tok ->
+    (match int_token tok with
+     | Some z -> Buffer.add_string b ("I" ^ string_of_z z)
+     | None -> Buffer.add_string b ("D" ^ string_of_z (pf tok)))
+  | JArr l -> Buffer.add_string b (Printf.sprintf "A%d" (List.length l));
+    List.iter (fun x -> Buffer.add_char b ' '; show_tree_val b x) l
+  | JObj ms -> Buffer.add_string b (Printf.sprintf "O%d" (List.length ms));
+    List.iter (fun (k, x) -> Buffer.add_string b (" S" ^ string_of_cps k ^ " "); show_tree_val b x) ms
+  | _ -> show_tree b t
+let tree_val_string t = let b = Buffer.create 64 in show_tree_val b t; Buffer.contents b
+
 (* some object of the value's JSON has two members of the same name *)
 let rec dup_names (v : value) : bool =
   match v with
@@ -139,7 +154,7 @@ let () =
              (if sym_keys v then "" else "strkeys");
              (if dup_names v then "dupnames" else "")]) in
          Printf.printf "%s\tjson=%s;parse=%s;unjson=%s\ttree=%s;back=%s;flags=%s\n" id
-           (hex_of_bytes js) pstr_s un (tree_string (tree_of fmt v)) (show_outcome (Ok (norm v))) flags
+           (hex_of_bytes js) pstr_s un (tree_val_string (tree_of fmt v)) (show_outcome (Ok (norm v))) flags
        | "Q" :: rest ->
          let s = cps_of_string (match rest with c :: _ -> c | [] -> "") in
          let q = json_quote s in
